@@ -52,7 +52,57 @@ def check_pdag_to_cpdag(pdag):
     return 1, viols
 
 
-CHECKS = {F + "dag_to_cpdag": check_dag_to_cpdag, F + "pdag_to_cpdag": check_pdag_to_cpdag}
+def check_dag_to_cpdag_large(G):
+    """graphs too large for the brute-force class, from families whose essential graph is known in closed form; the family is
+    recognised here from G itself: (a) no node has two parents -> no v-structure -> every edge reversible (the skeleton);
+    (b) every pair adjacent (complete DAG) -> the complete undirected graph; (c) all edges point into one node whose parents are
+    pairwise non-adjacent and >= 2 -> every edge is in a v-structure -> the DAG itself."""
+    G = np.asarray(G)
+    p = len(G)
+    B = (G != 0).astype(int)
+    snap = C.snapshot(G)
+    indeg = B.sum(axis=0)
+    if indeg.max() <= 1 or (B + B.T + np.eye(p, dtype=int)).min() >= 1:
+        expected = ((B + B.T) != 0).astype(int)
+    elif (indeg > 0).sum() == 1 and indeg.max() >= 2:
+        expected = B
+    else:
+        return 0, []
+    st, r = C.call(U.dag_to_cpdag, G)
+    if st == "exc":
+        viols = C.unexpected_exception(r, "dag_to_cpdag on a large DAG (%d edges)" % B.sum())
+    elif not isinstance(r, np.ndarray) or r.shape != (p, p) or not np.array_equal(r, expected):
+        viols = [("dag_to_cpdag vs closed-form essential graph (large graph, %d edges)" % B.sum(), "wrong graph: %d entries differ" % (int((np.asarray(r) != expected).sum()) if isinstance(r, np.ndarray) and r.shape == (p, p) else -1))]
+    else:
+        viols = []
+    if not C.unchanged(snap, G):
+        viols.append(("dag_to_cpdag: input modified", "G changed"))
+    return 1, viols
+
+
+def large_graphs(seed):
+    rng = np.random.default_rng(seed)
+    out = []
+    for p in (17, 24):                     # complete DAGs: 136 and 276 edges
+        perm = rng.permutation(p)
+        out.append(np.triu(np.ones((p, p), dtype=int), 1)[perm][:, perm])
+    for p in (140, 300):                   # random out-trees and a chain: p - 1 edges
+        T = np.zeros((p, p), dtype=int)
+        for v in range(1, p):
+            T[rng.integers(0, v), v] = 1
+        perm = rng.permutation(p)
+        out.append(T[perm][:, perm])
+        out.append(np.diag(np.ones(p - 1), 1))
+    for p in (131, 260):                   # collider stars: p - 1 compelled edges
+        S = np.zeros((p, p))
+        c = int(rng.integers(0, p))
+        S[:, c] = rng.uniform(0.5, 2, size=p) * rng.choice((-1, 1), size=p)
+        S[c, c] = 0
+        out.append(S)
+    return out
+
+
+CHECKS = {F + "dag_to_cpdag": check_dag_to_cpdag, F + "pdag_to_cpdag": check_pdag_to_cpdag, F + "dag_to_cpdag#large": check_dag_to_cpdag_large}
 
 
 def do_pdag(t, p, pc):
@@ -72,6 +122,11 @@ def worker(task):
             t.check(F + "dag_to_cpdag", G=O.decode(p, code))
             t.check(F + "dag_to_cpdag", G=O.decode(p, code, np.float64))
             t.check(F + "dag_to_cpdag", G=O.weighted(p, code, seed))
+    elif kind == "large":
+        for k, G in enumerate(large_graphs(task[1])):
+            if k % task[3] == task[2]:
+                t.mark(C.key(K_DAG, len(G), int((G != 0).sum()) * 1000 + k))
+                t.check(F + "dag_to_cpdag#large", G=G)
     elif kind == "pdag_range":
         _, p, lo, hi = task
         for idx in range(lo, hi):
@@ -115,13 +170,15 @@ def run(tier, seed):
         for (lo, hi) in C.ranges(0, O.n_matrices(p), 128 if p < 5 else 4096):
             tasks.append(("pdag_range", p, lo, hi))
     tasks.sort(key=lambda t: -t[1])
+    tasks = [("large", seed, k, 8) for k in range(8)] + tasks
     tally = C.Tally(HARNESS, CHECKS)
     C.run_pool(worker, tasks, tally)
     rule = ("dag_to_cpdag: every DAG on p<=%d labelled nodes x {int 0/1, float 0/1, signed float weights}, output must be the 0/1 "
             "union graph of the brute-force class {same skeleton, same v-structures} (hence identical for all members); "
             "pdag_to_cpdag: every 0/1 zero-diagonal matrix with acyclic directed part on p<=%d: essential graph of the class of its "
             "consistent extensions, ValueError iff it has none. non-trivial = graph with >=1 edge; distinct = exact integer key "
-            "(kind, p, matrix bits) in a set" % (pmax, pmax))
+            "(kind, p, matrix bits) in a set; plus 8 large DAGs (136..299 edges: complete DAGs p=17,24, out-trees and chains "
+            "p=140,300, collider stars p=131,260) against their closed-form essential graphs" % (pmax, pmax))
     return C.report(tally, rule, exhaustive=True, bound="p<=%d" % pmax, samples=C.safe_samples(samples))
 
 
